@@ -110,15 +110,16 @@ func VerifC11History(k int) {
 	}
 }
 
-// VerifC11RemoveAfterTraffic: under every strategy, with three backends that
-// have all been serving two clients for a while: remove the backend that served
-// a client's last request; from then on no request of either client is served
+// VerifC11RemoveAfterTraffic: under every strategy, with two to four backends
+// that have been serving one or two clients for a while: remove the backend that
+// served a client's last request (and possibly a second backend); from then on no request of either client is served
 // by it, and every request is served by a listed backend - whatever per-client
 // or per-backend state the strategy keeps.
 func VerifC11RemoveAfterTraffic(strategy int) {
 	lb := verifBareLB(strategy)
-	for i := 0; i < 3; i++ {
-		lb.AddBackend(config.BackendConfig{Name: verifNames[i], Address: "http://" + verifNames[i] + ":80", Weight: 1 + i})
+	n := 2 + verifrt.Choice("poolSize", 3) // 2..4 backends
+	for i := 0; i < n; i++ {
+		lb.AddBackend(config.BackendConfig{Name: verifNames[i], Address: "http://127.0.0.1:" + verifPorts[i], Weight: 1 + i})
 	}
 	r1 := verifRequest("10.1.2.3:4711")
 	r2 := verifRequest("10.9.8.7:4711")
@@ -126,16 +127,29 @@ func VerifC11RemoveAfterTraffic(strategy int) {
 	warm := verifrt.Choice("requestsBefore", 3) + 1
 	var last *Backend
 	for i := 0; i < warm; i++ {
-		lb.findHealthyBackend(r2)
+		if verifrt.Bool("secondClientToo") {
+			lb.findHealthyBackend(r2)
+		}
 		last = lb.findHealthyBackend(r1)
 	}
 	verifrt.Assert(last != nil, "a configured healthy backend serves")
-	gone := last.Name
-	lb.RemoveBackend(gone)
+	gone := []string{last.Name}
+	lb.RemoveBackend(last.Name)
+	// the pool may shrink by more than one backend before the next request arrives (down to one backend)
+	if n >= 3 && verifrt.Bool("removeASecondBackend") {
+		for _, in := range lb.ListBackends() {
+			gone = append(gone, in.Name)
+			lb.RemoveBackend(in.Name)
+			break
+		}
+	}
 	for i := 0; i < 4; i++ {
 		for _, r := range []*http.Request{r1, r2} {
 			b := lb.findHealthyBackend(r)
-			verifrt.Assert(b != nil && b.Name != gone, "once remove returns no backend of that name receives new requests (after real traffic, every strategy)")
+			verifrt.Assert(b != nil, "requests arriving after a remove are served while a backend is configured")
+			for _, g := range gone {
+				verifrt.Assert(b == nil || b.Name != g, "once remove returns no backend of that name receives new requests (after real traffic, every strategy)")
+			}
 			listed := false
 			for _, in := range lb.ListBackends() {
 				if b != nil && in.Name == b.Name {
